@@ -37,4 +37,6 @@ WHAT TO PRODUCE
 {files}{where}
 5. Verify all three facts yourself (suite green with the change, demo fails with it, demo passes without it - use `git diff > my_change.diff`, `git checkout -- logos-codegen src logos-derive logos-cli`, and `git apply my_change.diff`; never `git stash`). Then leave the worktree with the change APPLIED and the demo file present, and write {wt}/meta.txt containing: a short name for the change (a few words), what the change is and where, which clause of the property it breaks, exactly what it needs in order to manifest, and the commands you ran with their outcomes.
 
+6. While reading the code you may notice that the UNCHANGED sources already break the property (or something a user would expect along the same lines) for some definition or input. Do not repair it and do not build your change on it; check it if that is cheap, and describe it in a section headed SIDE FINDING in meta.txt (the definition or input, what happens, what should happen), and mention it in your final answer. Write "SIDE FINDING: none" if you noticed nothing.
+
 Keep the build output inside the worktree (default target dir). Your final answer should be a brief report: short name, files touched, trigger, and the three verification outcomes.""")
